@@ -22,6 +22,9 @@ def stateless_events(ctx, ty, dtype, n):
     ev = []
     Z = X @ Y
     Z2 = X * Y
+    # every public spelling of the product / inverse / action (function forms and methods)
+    forms = {"pp.Mul": lambda: pp.Mul(X, Y), "pp.mul": lambda: pp.mul(X, Y), ".mul": lambda: X.mul(Y)}
+    iforms = {"pp.Inv": lambda: pp.Inv(X), "pp.Act": lambda: pp.Act(X, p3)}
     Xi = X.Inv()
     A3 = X.Act(p3)
     A3b = X @ p3
@@ -44,6 +47,26 @@ def stateless_events(ctx, ty, dtype, n):
         ev.append({"op": "rotation", "ty": ty, "x": x, "out": L.dyvec(R.tensor()[i])})
         ev.append({"op": "translation", "ty": ty, "x": x, "out": L.dyvec(T[i])})
         ev.append({"op": "scale", "ty": ty, "x": x, "out": L.dyvec(S[i])})
+    for name, f in forms.items():
+        try:
+            Zf = f()
+        except Exception as ex:
+            ev.append({"op": "raise", "ty": ty, "what": ("%s: %r" % (name, ex))[:200]})
+            continue
+        for i in range(0, n, 4):
+            ev.append({"op": "mul", "ty": ty, "x": L.dyvec(X.tensor()[i]), "y": L.dyvec(Y.tensor()[i]),
+                       "out": L.dyvec(Zf.tensor()[i]), "via": name})
+    for name, f in iforms.items():
+        try:
+            Zf = f()
+        except Exception as ex:
+            ev.append({"op": "raise", "ty": ty, "what": ("%s: %r" % (name, ex))[:200]})
+            continue
+        for i in range(0, n, 4):
+            if name == "pp.Inv":
+                ev.append({"op": "inv", "ty": ty, "x": L.dyvec(X.tensor()[i]), "out": L.dyvec(Zf.tensor()[i]), "via": name})
+            else:
+                ev.append({"op": "act3", "ty": ty, "x": L.dyvec(X.tensor()[i]), "p": L.dyvec(p3[i]), "out": L.dyvec(Zf[i]), "via": name})
     ident = getattr(pp, "identity_" + ty)(2, dtype=dtype)
     ev.append({"op": "identity", "ty": ty, "x": L.dyvec(ident.tensor()[0]), "out": L.dyvec(ident.tensor()[1])})
     # ---- operands that went through copy / serialisation: still the same elements of the same group
